@@ -371,6 +371,62 @@ def varsUnknown (script : String) (toks : List String) : Bool :=
     | ["X", id] => (exprKind id) == some .nodeSet && (xpathValsOf si.cls id).isNone
     | _ => false
 
+/-- the calls of a gRPC scenario, in order: `req` is what the earlier calls of the shot stored under `request`
+(`c<i>.postprocessor` = the response message as JSON, only for a call that returned a message). A `Pg~` / `Fg~` token is
+a preprocessor of the call that reads a field of an earlier response: when it cannot produce its variable the call
+fails before it is made (`GrpcCallKind.prepFails`). -/
+def grpcCallsOf : Nat → Fields → List (List String) → Option (List (GrpcCallCfg × GrpcReply))
+  | _, _, [] => some []
+  | i, req, [tag, kind, code, pp0] :: rest => do
+    let toks := splitList pp0 "+"
+    let cd ← code.toNat?
+    let asserts : List GrpcAssert ← (toks.filter (·.startsWith "as")).mapM fun pp =>
+      match natAfter "as" ((pp.splitOn ":").headD ""), pp.splitOn ":" with
+      | some st, [_] => some ({ statusCode := st } : GrpcAssert)
+      | some st, [_, pat] => (strOfHex pat).map fun p => ({ payload := [p], statusCode := st } : GrpcAssert)
+      | _, _ => none
+    let k0 : GrpcCallKind := match kind with
+      | "nomethod" => .unknownMethod
+      | "badpayload" => .badPayload
+      | _ => .callable
+    let tv : Fields := [("source", .obj []), ("request", .obj ((s!"c{i}", .obj []) :: req))]
+    let fieldPath (src field : String) (ix : Option String) (sub : Option String) : List Seg :=
+      [{ name := "request" }, { name := "c" ++ src }, { name := "postprocessor" },
+       { name := field, index := ix.map indexKindOfText }] ++ (match sub with | some x => [{ name := x }] | none => [])
+    let pre : List (Option PreMap) ← toks.mapM fun tok =>
+      match tok.splitOn "~" with
+      | ["Pg", src, field, ix] => (parseIxField ix).map fun j => some (PreMap.path (fieldPath src field j none) {})
+      | ["Pg", src, field, ix, sub] => (parseIxField ix).map fun j => some (PreMap.path (fieldPath src field j (some sub)) {})
+      | ["Fg", fn, src, field] =>
+        let v : TplArg := { segs := fieldPath src field none none, text := s!"request.c{src}.postprocessor.{field}" }
+        (match fn with
+         | "rs" => some (some (.call .randString [v]))
+         | "rs2" => some (some (.call .randString [litArg "3", v]))
+         | "ri" => some (some (.call .randInt [v]))
+         | "ri2" => some (some (.call .randInt [v, litArg "10"]))
+         | "ri3" => some (some (.call .randInt [litArg "-5", v]))
+         | _ => none)
+      | _ => some none
+    let preOk : Bool := match preprocess (some maxRandStringLength) tv ((pre.filterMap id).map fun m => ("x", m)) with
+      | .ok (some _) => true
+      | _ => false
+    let k : GrpcCallKind := if preOk then k0 else .prepFails
+    let code ← if k0 == .callable then (if kind == "list" then some 0 else grpcKindCode kind cd) else some 0
+    -- `out.String()`: the service's greeting; a message of foreign fields only does not contain the patterns used
+    let reply : GrpcReply := { code := code
+                               payloadHas := fun p => kind == "ok" && isInfix p.toList "Hello verif!".toList }
+    -- what the call stores: the response message as JSON (proto3: empty lists and strings are omitted)
+    let post : Option Fields :=
+      if k != .callable || code != 0 then none
+      else if kind == "ok" then some [("hello", .str "Hello verif!")]
+      else if kind == "list" then
+        some (if cd == 0 then [] else [("result", .list true ((List.range cd).map fun j => .obj [("itemId", .str (toString (j + 1)))]))])
+      else some []
+    let entry : Fields := [("preprocessor", .obj [])] ++ (match post with | some f => [("postprocessor", .obj f)] | none => [])
+    let tl ← grpcCallsOf (i + 1) ((s!"c{i}", .obj entry) :: req) rest
+    pure ((({ tag := tag, kind := k, asserts := asserts } : GrpcCallCfg), reply) :: tl)
+  | _, _, _ => none
+
 def handleRun (kv : List (String × String)) (impl : String) : String × String :=
   let (res, n) := implRes impl
   let noCfg : AutoTagCfg := { enabled := false, uriElements := 2, noTagOnly := true }
@@ -472,7 +528,7 @@ def handleRun (kv : List (String × String)) (impl : String) : String × String 
       let unknown := !noConn && stepToks.any fun f =>
         match f with
         | [_, script, truth, pps] =>
-          truthUnknown truth || (script.splitOn ".").any (·.startsWith "bjs") || (splitList pps "+").any (fun t => t == "U" || t.startsWith "T~" || t.startsWith "UH~" || t.startsWith "UB~") ||
+          truthUnknown truth || (script.splitOn ".").any (·.startsWith "bjt") || (splitList pps "+").any (fun t => t == "U" || t.startsWith "T~" || t.startsWith "UH~" || t.startsWith "UB~") ||
             (hasVarTok && varsUnknown script (splitList pps "+"))
         | _ => false
       if unknown || !certain || (fatal && inst > 1) || makeslice then ("-", v) else (fmtRun run "panic:not-http2", v)
@@ -496,30 +552,7 @@ def handleRun (kv : List (String × String)) (impl : String) : String × String 
       let mo := fmtRun run "panic:unexpected"
       if (lookup kv "stopafter").isSome || transportNoise mo impl then ("-", v) else (mo, v)
   | "grpc/scenario" =>
-    let parsed := (splitList (getS kv "calls") ";").mapM fun c =>
-      match c.splitOn "," with
-      | [tag, kind, code, pp0] => do
-        -- a trailing `U`: the payload is rendered from the previous call's response (a missing field renders as text:
-        -- the call is made all the same)
-        let pp := if pp0 == "U" then "-" else if pp0.endsWith "+U" then (pp0.dropEnd 2).toString else pp0
-        let cd ← code.toNat?
-        let asserts : List GrpcAssert ←
-          if pp == "-" then some []
-          else match natAfter "as" ((pp.splitOn ":").headD ""), pp.splitOn ":" with
-            | some st, [_] => some [{ statusCode := st }]
-            | some st, [_, pat] => (strOfHex pat).map fun p => [{ payload := [p], statusCode := st }]
-            | _, _ => none
-        let k : GrpcCallKind := match kind with
-          | "nomethod" => .unknownMethod
-          | "badpayload" => .badPayload
-          | _ => .callable
-        let code ← if k == .callable then grpcKindCode kind cd else some 0
-        -- `out.String()`: the service's greeting; a message of foreign fields only does not contain the patterns used
-        let reply : GrpcReply := { code := code
-                                   payloadHas := fun p => kind == "ok" && isInfix p.toList "Hello verif!".toList }
-        pure (({ tag := tag, kind := k, asserts := asserts } : GrpcCallCfg), reply)
-      | _ => none
-    match parsed with
+    match grpcCallsOf 0 [] ((splitList (getS kv "calls") ";").map fun c => c.splitOn ",") with
     | none => ("-", "fail:driver:unparsable calls")
     | some calls =>
       let shotsN := (getN? kv "n").getD 1
